@@ -68,6 +68,11 @@ func Extract(repo string, maxFile int) ([]Doc, error) {
 			}
 			for i, s := range ins {
 				add(Doc{MT: mt, Name: filepath.Base(f) + "#" + strconv.Itoa(i), Src: "table", Data: []byte(s)})
+				if pkg == "css" && !strings.ContainsAny(s, "{}") && len(s) > 0 {
+					// the tables for inline style declarations, put into the context of a rule so
+					// that the declaration code paths are reached by a stylesheet too
+					add(Doc{MT: mt, Name: filepath.Base(f) + "#" + strconv.Itoa(i) + "/rule", Src: "table", Data: []byte("a{" + s + "}")})
+				}
 			}
 		}
 		fuzz, _ := filepath.Glob(filepath.Join(repo, "tests", pkg, "corpus", "*"))
